@@ -5,7 +5,8 @@ open Otel Otel.Wire Otel.C01
 
 /-! Line kinds
 `sched <gen> <cap> <maxB> <blocking> | <op> <op> … => <obs> <obs> …`   one observation per op
-   ops: `e<id>` `g+` `g-` `f<fid>` `s`
+   ops: `e<id>` `g+` `g-` `f<fid>` `s`; leg `park` (build tag verif) adds `p<id>`/`r<id>` (OnEnd parked after its stopped check /
+        released), `fp<fid>`/`fr<fid>` (ForceFlush likewise), `sp`/`sr` (Shutdown parked after storing stopped / released)
    obs: `L=<b1/b2/…>;X=<0|1>;F=<fid>:<p|o|e>,…;S=<n|p|o>;D=<dropped>;Q=<len(queue)>;E=<ids whose OnEnd returned>`
         batches/ids as dot-separated lists, `-` when empty; `H` = number of exporter Shutdown calls so far
 `hist <gen> <cap> <maxB> <blocking> <dropped> | <ev> <ev> … => -`      free-running history (oracle only)
@@ -22,8 +23,14 @@ def parseDot (s : String) : Option (List Nat) :=
 def parseOp (t : String) : Option Op :=
   if t == "g+" then some (.gate true) else if t == "g-" then some (.gate false)
   else if t == "s" then some .sd
+  else if t == "sp" then some .parkSd
+  else if t == "sr" then some .releaseSd
+  else if t.startsWith "fp" then (dropS t 2).toNat?.map .parkFF
+  else if t.startsWith "fr" then (dropS t 2).toNat?.map .releaseFF
   else if t.startsWith "e" then (dropS t 1).toNat?.map .end_
   else if t.startsWith "f" then (dropS t 1).toNat?.map .ff
+  else if t.startsWith "p" then (dropS t 1).toNat?.map .parkEnd
+  else if t.startsWith "r" then (dropS t 1).toNat?.map .releaseEnd
   else none
 
 def phChar (p : FPhase) : String :=
@@ -44,12 +51,16 @@ def obsOf (s : St) : String :=
   let ended := (s.seen.foldr (fun x acc => insertSorted (x, "") acc) []).map (·.1)
   s!"L={l};X={if s.busy.isSome then 1 else 0};F={f};S={sd};D={s.droppedIds.length};Q={s.queue.length};E={dotList ended};H={if s.sd = .shut then 1 else 0}"
 
-def runSched (v : Nat) (s : St) (ops : List Op) : List String :=
+def runSchedP (v : Nat) (ps : Parked × St) (ops : List Op) : List String × (Parked × St) :=
   match ops with
-  | [] => []
+  | [] => ([], ps)
   | op :: r =>
-    let s' := settle v 4000 (applyOp s op)
-    obsOf s' :: runSched v s' r
+    let ps1 := applyOp ps op
+    let ps' := (ps1.1, settle v ps1.1 4000 ps1.2)
+    let (rest, fin) := runSchedP v ps' r
+    (obsOf ps'.2 :: rest, fin)
+
+def runSched (v : Nat) (s : St) (ops : List Op) : List String := (runSchedP v ({}, s) ops).1
 
 /-- fields of an observation -/
 def field (obs : String) (k : String) : Option String :=
@@ -81,9 +92,9 @@ def schedOracle (maxB : Nat) (blocking : Bool) (ops : List Op) (obs : List Strin
       let bad := if expSd ≥ 1 && inX then "S3:exporter-shutdown-during-export" :: bad else bad
       let bad := if Spec.noDuplicate batches then bad else "S1" :: bad
       let bad := if Spec.batchBound maxB batches then bad else "S2" :: bad
-      let bad := if Spec.onlyEnded batches (ended ++ (ops.filterMap fun | .end_ id => some id | _ => none) ++ prevE) then bad else "S6" :: bad
-      let ffPre := match op with | .ff fid => (fid, prevE) :: ffPre | _ => ffPre
-      let sdPre := match op, sdPre with | .sd, none => some prevE | _, p => p
+      let bad := if Spec.onlyEnded batches (ended ++ (ops.filterMap fun | .end_ id => some id | .parkEnd id => some id | _ => none) ++ prevE) then bad else "S6" :: bad
+      let ffPre := match op with | .ff fid => (fid, prevE) :: ffPre | .parkFF fid => (fid, prevE) :: ffPre | _ => ffPre
+      let sdPre := match op, sdPre with | .sd, none => some prevE | .parkSd, none => some prevE | _, p => p
       let ffs := parseFF ((field o "F").getD "-")
       let newly := ffs.filter fun (fid, st) => st == "o" && !doneFF.contains fid
       let (bad, f22) := newly.foldl (fun (acc : List String × Bool) (fid, _) =>
@@ -126,7 +137,8 @@ def parseEv (t : String) : Option Spec.Ev :=
 def stepLine (_ : Unit) (toks : List String) : Unit × Option Verdict :=
   let (inp, obs) := splitObs toks
   match inp with
-  | "sched" :: _ :: cap :: maxB :: bl :: "|" :: opToks =>
+  | kind :: _ :: cap :: maxB :: bl :: "|" :: opToks =>
+    if kind != "sched" && kind != "park" then ((), none) else
     match cap.toNat?, maxB.toNat?, opToks.mapM parseOp with
     | some cap, some maxB, some ops =>
       let blocking := bl == "1"
@@ -135,7 +147,7 @@ def stepLine (_ : Unit) (toks : List String) : Unit × Option Verdict :=
       let agreeV := [0, 1, 2, 3].find? fun v => runSched v (init cap maxB blocking) ops == obs
       let vv := agreeV.getD 0
       let (bad, f22) := schedOracle maxB blocking ops obs
-      let final := settle vv 4000 (ops.foldl (fun s op => settle vv 4000 (applyOp s op)) (init cap maxB blocking))
+      let final := (runSchedP vv ({}, init cap maxB blocking) ops).2.2
       -- F22 is accepted only when the model itself took one of ForceFlush's early exits (`F22_applies`)
       let f22model := final.ffs.any (fun f => f.ph == .retEarly)
       let spec := if !bad.isEmpty then "FAIL" else if f22 && f22model then "KNOWN:F22" else if f22 then "FAIL" else "ok"
